@@ -80,6 +80,10 @@ func (o goStructObject) setValue(rt *runtime, name string, value Value) bool {
 		return false
 	}
 
+	if !fieldValue.CanSet() {
+		// A struct passed by value is not addressable (see the FIXME at the top).
+		panic(rt.panicTypeError("Object.setValue: cannot assign to field %q of a struct passed by value (pass a pointer)", name))
+	}
 	converted, err := rt.convertCallParameter(value, fieldValue.Type())
 	if err != nil {
 		panic(rt.panicTypeError("Object.setValue convertCallParameter: %s", err))
